@@ -533,7 +533,9 @@ func ensureHTMLSafeLoginDestination(loginDestination string) string {
 	if err != nil {
 		return profilePath
 	}
-	return parsedLoginDestination.String()
+	// url.URL.String() leaves the query verbatim: escape for use inside an
+	// HTML attribute value.
+	return htmltemplate.HTMLEscapeString(parsedLoginDestination.String())
 
 }
 
